@@ -2,9 +2,9 @@ package main
 
 import (
 	"fmt"
-	"os"
 	"go/token"
 	"go/types"
+	"os"
 
 	"golang.org/x/tools/go/ssa"
 )
@@ -35,6 +35,7 @@ func (p *Prog) derivedTemplates() map[derivedKey]*Sym {
 
 func (p *Prog) computeDerived() map[derivedKey]*Sym {
 	out := map[derivedKey]*Sym{}
+	p.derivedVirtual = map[*types.Named]*Sym{}
 	type use struct {
 		stores  []*ssa.Store
 		escapes bool
@@ -114,13 +115,71 @@ func (p *Prog) computeDerived() map[derivedKey]*Sym {
 			}
 			optsSym, lit = p.Sym(u.stores[0].Val), al
 		}
-		if os.Getenv("DERIVED_DEBUG") != "" {
-			fmt.Println("derived-debug:", d.Name, "ctors", len(d.Ctors), "opts", optsSym)
+		optsStr := ""
+		hasOptsField := false
+		for i := 0; i < st.NumFields(); i++ {
+			if fieldName(types.NewPointer(d.Named), i) == "opts" {
+				hasOptsField = true
+			}
 		}
-		if optsSym == nil {
+		if optsSym != nil {
+			optsStr = optsSym.String()
+		} else if hasOptsField {
 			continue
+		} else {
+			// no options field at all: the struct keeps only the options it needs; they are read
+			// as fields of virtual options, provided the constructor has one struct parameter
+			if len(ctor.Params) != 1 {
+				continue
+			}
+			if _, isSt := ctor.Params[0].Type().Underlying().(*types.Struct); !isSt {
+				continue
+			}
+			for _, b := range ctor.Blocks {
+				for _, in := range b.Instrs {
+					if al, isAl := in.(*ssa.Alloc); isAl && al.Heap && namedOrigin(al.Type()) == d.Named {
+						if lit != nil {
+							lit = nil
+							break
+						}
+						lit = al
+					}
+				}
+			}
+			if lit == nil {
+				continue
+			}
 		}
-		optsStr := optsSym.String()
+		// isOptions: the constructor's options parameter, or what a normaliser (a product method
+		// from the options type to itself) makes of it
+		var isOptions func(s *Sym, depth int) bool
+		isOptions = func(s *Sym, depth int) bool {
+			if s == nil || depth > 3 {
+				return false
+			}
+			if s.Op == "param" {
+				return s.V == ssa.Value(ctor.Params[0])
+			}
+			if s.Op == "un" && s.Name == "*" && len(s.Args) == 1 {
+				return false
+			}
+			if s.Op == "call" {
+				call, ok := s.V.(*ssa.Call)
+				if !ok {
+					return false
+				}
+				cal := p.Callee(call)
+				if cal == nil || !p.IsProduct(cal) || cal.Signature.Recv() == nil || cal.Signature.Results().Len() != 1 || len(s.Args) != 1 {
+					return false
+				}
+				if !types.Identical(cal.Signature.Recv().Type(), cal.Signature.Results().At(0).Type()) {
+					return false
+				}
+				return isOptions(s.Args[0], depth+1)
+			}
+			return false
+		}
+		virtualStr := ""
 		for i := 0; i < st.NumFields(); i++ {
 			if st.Field(i).Exported() || fieldName(types.NewPointer(d.Named), i) == "opts" {
 				continue
@@ -141,9 +200,22 @@ func (p *Prog) computeDerived() map[derivedKey]*Sym {
 					pure = false
 					return nil
 				}
-				if s.String() == optsStr {
+				if optsStr != "" && s.String() == optsStr {
 					usesOpts = true
 					return &Sym{Op: "field", Name: "opts", Args: []*Sym{{Op: "hole"}}}
+				}
+				if optsStr == "" && len(ctor.Params) == 1 && isOptions(s, 0) {
+					// every derived field must read the same version of the options
+					if virtualStr == "" {
+						virtualStr = s.String()
+						p.derivedVirtual[d.Named] = s
+					}
+					if s.String() == virtualStr {
+						usesOpts = true
+						return &Sym{Op: "field", Name: "opts", Args: []*Sym{{Op: "hole"}}}
+					}
+					pure = false
+					return s
 				}
 				switch s.Op {
 				case "const":
@@ -227,4 +299,19 @@ func (p *Prog) derivedNotes() []string {
 		out = append(out, p.Name+": "+k.named.Obj().Name()+"."+st.Field(k.idx).Name()+" caches "+fillHole(t, &Sym{Op: "param", Name: "<struct>"}).String())
 	}
 	return out
+}
+
+// virtualOptions: for a discipline struct without an options field whose fields cache single
+// options, the version of the constructor's options they were read from (nil if none).
+func (p *Prog) virtualOptions(named *types.Named) *Sym {
+	has := false
+	for k := range p.derivedTemplates() {
+		if k.named == named {
+			has = true
+		}
+	}
+	if !has {
+		return nil
+	}
+	return p.derivedVirtual[named]
 }
